@@ -271,6 +271,25 @@ CLAIMED["C10"] = dict(
 NOT_YET = "rule set not implemented in this revision of /verif (see DESIGN.md §7 build order); nothing is claimed"
 NA = {}
 
+
+# rules added after the first seed rounds (appended to the level texts)
+ADDENDA = {
+    "C01": " Added: R1.5 now covers every function of the relate module (any branch on a rounded value outside three confirmed harmless sites); R1.6 tables of dimensions()/boundary_dimensions()/is_closed of the container types on all member assignments (two members unrolled).",
+    "C02": " Added: R2.7 every loop-free Intersects/Contains impl between Coord, Point, Line, Rect, Triangle (33 pairs today, new kernels included) is tabulated and compared with exact convex-set reference geometry on witness catalogues.",
+    "C03": " Added: R3.6 the sign-level decision tables of point-on-segment, segment-segment intersects, point-in-triangle, the ring crossing step, polygon composition and winding_order (rings with repeated vertices) against exact integer geometry.",
+    "C04": " Added: every result path of boolean_op / unary_union / clip must pass through the engine call (no geo-side shortcut).",
+    "C05": " Added: R5.6 path tables of winding_order for concrete (length, least index) walked with witness rings carrying repeated vertices in every position.",
+    "C06": " Added: R6.6 every add_centroid weight is the non-negative measure of its dimension (1 / Euclidean length / unsigned or absolute area).",
+    "C08": " Added: R8.6 the farthest-point key of quick hull is a positive multiple of cross(b-a, pt-a) in which the candidate enters only through differences with a segment end.",
+    "C09": " Added: R9.6 compute_rdp culls only under farthest<=eps where farthest is the max over all interior vertices of the Euclidean point-to-SEGMENT distance to Line(first,last); R9.7 the Visvalingam loops stop exactly at area > eps.",
+    "C10": " Added: R10.4 roles of the chains joined by finish_with in the monotone builder (help[0] upper, help[1] lower; def-chain provenance); R10.5 helper_chain updated on every way through the chain-continuing arms (CFG must-pass); R10.6 stitch parent test is Polygon.contains(whole ring).",
+    "C12": " Added: a computed SinglePoint must be on a path that found self.intersects(p) false.",
+    "C13": " Added: the composition laws are checked on every path of compose under its own path condition; compose_many is the left fold of compose.",
+    "C14": " Added: R14.6 the ring simplicity helper is the complete pairwise segment test (decision alphabet, true-condition, false only after exhaustion).",
+    "C15": " Added: R15.4 Densifiable for Polygon / Multi* / Rect / Triangle densifies every part on every path.",
+    "C20": " Added: R20.5 no call mutates state a later call reads (PreparedGeometry hands out fresh edges on every path; inventory of interior-mutable fields).",
+}
+
 def main():
     props = [json.loads(l) for l in open(os.path.join(HERE, "properties.jsonl"))]
     checks = []
@@ -286,7 +305,7 @@ def main():
                 "evidence_file": "/verif/evidence/%s.json" % pid,
                 "replay_cmd_template": "./check %s --explain {path}" % pid,
                 "engine": "geofacts+rules",
-                "level_claimed": {"category": c["category"], "text": c["text"], "design_ref": c["design_ref"]},
+                "level_claimed": {"category": c["category"], "text": c["text"] + ADDENDA.get(pid, ""), "design_ref": c["design_ref"]},
                 "level_note": c["note"],
                 "technique": c["technique"],
             })
